@@ -390,6 +390,18 @@ func initTopicP2P(t *Topic, sreg *ClientComMessage) error {
 			// Ensure sanity: user2's default access may include permissions not valid for P2P topics.
 			userData.modeGiven &= types.ModeCP2P
 
+			if user1only {
+				// The requester may have been subscribed before: restore the previous grant (it could be a ban)
+				// rather than the default, same as for group topics.
+				prev, err := store.Subs.Get(t.name, userID1, true)
+				if err != nil {
+					return err
+				}
+				if prev != nil {
+					userData.modeGiven = prev.ModeGiven & types.ModeCP2P
+				}
+			}
+
 			// By default assign the same mode that user1 gave to user2 (could be changed below)
 			userData.modeWant = sub2.ModeGiven
 
